@@ -86,6 +86,8 @@ CONSTS = ('PI', 'E', 'INF', 'NAN')
 def _valid_property(sim):
     pg = gen.PropGen(sim, max_depth=sim.randint('d', 1, 3))
     p = pg.prop()
+    if not p['meta'] and sim.coin('forcemeta', 0.3):
+        p['meta'] = [('title', '"title %d"' % sim.choose('tv', 100))]
     # sprinkle numeric constants (the serializer must null every non-finite float anywhere)
     if sim.coin('const', 0.45):
         c = sim.pick('constname', CONSTS)
@@ -127,7 +129,9 @@ def gen_scenario(seed, cfg):
     if mode == 'inline':
         text = _valid_property(sim)
     else:
-        text = '\n'.join(_valid_property(sim) for _ in range(sim.randint('nprops', 1, 3)))
+        text = '\n'.join(_valid_property(sim) for _ in range(sim.weighted('nprops', [(3, 1), (3, 2), (2, 3), (1, 6)])))
+        if sim.coin('crlf', 0.1):
+            text = text.replace('\n', '\r\n')
     content_kind = 'valid'
     if not valid:
         text, content_kind = _invalid_text(sim, text)
@@ -137,11 +141,19 @@ def gen_scenario(seed, cfg):
     raw_bytes = None
     if mode == 'file':
         path_kind = sim.weighted('pathkind', [(7, 'regular'), (1, 'missing'), (1, 'directory'), (1.5, 'symlink'),
-                                              (0.7, 'symlink_loop'), (0.8, 'bad_utf8'), (0.5, 'relative')])
+                                              (0.7, 'symlink_loop'), (0.8, 'bad_utf8'), (0.5, 'relative'),
+                                              (0.5, 'dangling_symlink'), (0.5, 'symlink_to_dir'), (0.4, 'bom')])
         if path_kind == 'bad_utf8':
-            pos = sim.choose('badpos', len(text.encode()) + 1)
             b = text.encode()
+            pos = sim.choose('badpos', len(b) + 1)
+            quotes = [i for i, ch in enumerate(b) if ch == 0x22]
+            if len(quotes) >= 2 and sim.coin('in_string', 0.6):
+                # a file saved in a legacy encoding: the undecodable byte sits inside a string literal
+                qi = sim.choose('whichstr', len(quotes) // 2) * 2
+                pos = sim.randint('strpos', quotes[qi] + 1, quotes[qi + 1])
             raw_bytes = list(b[:pos] + bytes([sim.pick('badbyte', (0xff, 0xc3, 0x80, 0xfe))]) + b[pos:])
+        if path_kind == 'bom':
+            raw_bytes = list(b'\xef\xbb\xbf' + text.encode())
     sc = {'seed': seed, 'mode': mode, 'json': as_json, 'text': text, 'content_kind': content_kind,
           'path_kind': path_kind, 'raw_bytes': raw_bytes,
           'out_buffer': sim.pick('outbuf', (0, 16, 64, 512, 8192, 8192)),
@@ -159,7 +171,15 @@ def setup_files(sc, root):
     pk = sc['path_kind']
     p = os.path.join(root, 'spec.hpl')
     data = bytes(sc['raw_bytes']) if sc.get('raw_bytes') is not None else sc['text'].encode('utf-8')
-    if pk in ('regular', 'bad_utf8', 'relative'):
+    if pk == 'dangling_symlink':
+        os.symlink(os.path.join(root, 'gone.hpl'), p)
+        return p
+    if pk == 'symlink_to_dir':
+        d = os.path.join(root, 'dir')
+        os.mkdir(d)
+        os.symlink(d, p)
+        return p
+    if pk in ('regular', 'bad_utf8', 'relative', 'bom'):
         with open(p, 'wb') as f:
             f.write(data)
         return p
@@ -280,10 +300,18 @@ def run_once(sc, faults):
             if not read_ok:
                 o.delivered = None
             else:
+                # strict UTF-8 decoding of the bytes on disk decides whether there is a text at all;
+                # the text itself is what read() handed to the program (newline translation and
+                # injected truncation included)
                 d = disk_text(arg_path)
-                for f in fs.fired:
-                    if f[1] == 'read' and f[2]['kind'] == 'truncate' and d is not None:
-                        d = d[:f[2]['n']]
+                got = fs.delivered
+                if d is not None and got is not None:
+                    if isinstance(got, bytes):
+                        try:
+                            got = got.decode('utf-8')
+                        except UnicodeDecodeError:
+                            got = None
+                    d = got
                 o.delivered = d
         return o
     finally:
